@@ -101,6 +101,75 @@ MAT[3] = {a + b: float(1 + 3 * i + j) for i, a in enumerate("xyz") for j, b in e
 MAT[4] = {a + b: float(1 + 4 * i + j) for i, a in enumerate("xyzt") for j, b in enumerate("xyzt")}
 
 
+def method_twin(m, A, B):
+    """The method an operator stands for (C05: same value and type), as a thunk; None where there is none."""
+    import vector
+
+    n = vector.dim(A) if hasattr(vector, "dim") else None
+    norm = {2: "rho", 3: "mag", 4: "tau"}
+    if m == "op_add":
+        return lambda: A.add(B)
+    if m == "op_sub":
+        return lambda: A.subtract(B)
+    if m == "op_matmul":
+        return lambda: A.dot(B)
+    if m == "op_eq":
+        return lambda: A.equal(B)
+    if m == "op_ne":
+        return lambda: A.not_equal(B)
+    if m in ("op_mul", "op_rmul"):
+        return lambda: A.scale(2.0)
+    if m == "op_div":
+        return lambda: A.scale(1 / 2.0)
+    if m == "op_neg":
+        return lambda: A.scale(-1)
+    if m == "op_abs":
+        return lambda: getattr(A, norm[n])
+    if m == "op_pow2":
+        return lambda: getattr(A, norm[n] + "2")
+    if m == "op_pow3":
+        return lambda: getattr(A, norm[n]) ** 3
+    return None
+
+
+def plain_values(x):
+    """Nested lists of floats / dicts of a result (vector or scalar container), for a tolerant comparison."""
+    import awkward as ak
+    import vector
+
+    if isinstance(x, (ak.Array, ak.Record)):
+        return ak.to_list(x)
+    if isinstance(x, vector.VectorObject):
+        out = {}
+        for g in ("azimuthal", "longitudinal", "temporal"):
+            c = getattr(x, g, None)
+            if c is not None:
+                out.update({k: float(v) for k, v in zip(type(c)._fields, c.elements)}) if hasattr(type(c), "_fields") else out.update({g + str(i): float(v) for i, v in enumerate(c.elements)})
+        return out
+    a = numpy.asarray(x)
+    if a.dtype.names:
+        return {nm: a[nm].tolist() for nm in a.dtype.names}
+    return a.tolist()
+
+
+def same_values(a, b, tol=1e-12):
+    if isinstance(a, dict) and isinstance(b, dict):
+        return set(a) == set(b) and all(same_values(a[k], b[k], tol) for k in a)
+    if isinstance(a, (list, tuple)) and isinstance(b, (list, tuple)):
+        return len(a) == len(b) and all(same_values(x, y, tol) for x, y in zip(a, b))
+    if a is None or b is None:
+        return a is None and b is None
+    if isinstance(a, bool) or isinstance(b, bool):
+        return bool(a) == bool(b)
+    try:
+        a, b = float(a), float(b)
+    except Exception:
+        return a == b
+    if a != a or b != b:
+        return a != a and b != b
+    return abs(a - b) <= tol * (1 + abs(a) + abs(b))
+
+
 def invoke(m, A, B):
     if m in ("add", "subtract", "dot", "equal", "not_equal", "isclose", "is_parallel", "is_antiparallel",
              "is_perpendicular", "deltaphi", "deltaangle", "deltaeta", "deltaR", "deltaR2", "deltaRapidityPhi",
@@ -201,6 +270,20 @@ def run_type_case(tc, full_sys):
             recs.append(dict(base, kind="missing-TypeError", got=kind_of(out)))
             continue
         d = describe(out)
+        twin = method_twin(m, A, B) if m.startswith("op_") else None
+        if twin is not None:
+            # an operator gives the same value and type as the method it stands for
+            calls += 1
+            try:
+                with numpy.errstate(all="ignore"):
+                    want = twin()
+                # (the container of a scalar result is judged by scalar_kinds below: the value is what is compared here)
+                if req["out"] == "vec" and type(want) is not type(out):
+                    recs.append(dict(base, kind="operator-type-differs-from-method", got=type(out).__name__, want=type(want).__name__))
+                elif not same_values(plain_values(out), plain_values(want)):
+                    recs.append(dict(base, kind="operator-value-differs-from-method", got=repr(plain_values(out))[:160], want=repr(plain_values(want))[:160]))
+            except Exception as ex:
+                recs.append(dict(base, kind="exception", error=f"method twin: {type(ex).__name__}: {ex}"[:300]))
         if req["out"] == "vec":
             if d["out"] != "vec":
                 recs.append(dict(base, kind="not-a-vector", got=d, want=req))
